@@ -124,4 +124,16 @@ theorem C16_rename_swap :
     renamePins [(⟨"a", none⟩, ⟨"b", none⟩), (⟨"b", none⟩, ⟨"a", none⟩)] [⟨"a", none⟩, ⟨"b", none⟩, ⟨"c", none⟩]
       = [⟨"b", none⟩, ⟨"a", none⟩, ⟨"c", none⟩] := by decide
 
+/-- `expand_mode` (as repaired) accepts a mode list exactly when the expanded pins print differently; in particular a
+repeated mode name is rejected, and so is the clash of `a_b`×`c` with `a`×`b_c` -/
+theorem C16_expand_exact (pins : List PinN) (modes : List String) :
+    buildTable (expandPins pins modes) ≠ none ↔ ((expandPins pins modes).map PinN.name).Nodup := by
+  rw [buildTable_spec]
+  by_cases nd : ((expandPins pins modes).map PinN.name).Nodup <;> simp [nd]
+
+theorem C16_expand_examples :
+    buildTable (expandPins [⟨"a", none⟩, ⟨"b", none⟩] ["TE", "TE"]) = none ∧
+    buildTable (expandPins [⟨"a_b", none⟩, ⟨"a", none⟩] ["c", "b_c"]) = none ∧
+    (buildTable (expandPins [⟨"a", none⟩, ⟨"b", none⟩] ["TE", "TM"])).isSome = true := by decide
+
 end Names
